@@ -626,7 +626,10 @@ class Block:
         def get_variables(start: int, end: int) -> List[int]:
             nonlocal factor, level_count, start_idx
             n = self.variables_for_factor(factor, start, end) // level_count
-            return reduce(lambda l, v: l + [start_idx + ((v + start) * level_count)], range(n), [])
+            # The factor's variables are numbered by the trials where it has a level, so skip
+            # the ones for applicable trials before `start` (not `start` trials)
+            before = (self.variables_for_factor(factor, 0, start) // level_count) if start > 0 else 0
+            return reduce(lambda l, v: l + [start_idx + ((v + before) * level_count)], range(n), [])
         return self.map_block_trial_ranges(within_block, get_variables)
 
     def sustain_count(self, f: Factor):
